@@ -1,9 +1,12 @@
 #!/bin/bash
 # tryseed.sh <prop> <patch.diff> [extra check args]: apply a seeded change to /repo, run the check, undo.
+# The patch is taken off again as soon as the check has built its engines (VERIF_AFTER_BUILD), so that /repo is
+# changed for a few seconds only; the script waits for other builds to finish before it applies the patch.
 prop=$1; patch=$2; shift 2
 cd /repo || exit 2
 git apply --check "$patch" || { echo "patch does not apply"; exit 2; }
+while pgrep -x "go1.26.8|go|compile|link|autoyield|asm" >/dev/null; do sleep 0.5; done
+touch /tmp/repo-patched.lock
 git apply "$patch"
-( cd /verif && timeout 3000 ./check "$prop" "$@" </dev/null 2>&1 | cut -c1-260 | grep -v "^VIOLATION" | head -8; echo "exit=${PIPESTATUS[0]}" )
-git -C /repo checkout -- . ; git -C /repo status --short | head -3
-find /verif/replays -type f -delete 2>/dev/null
+( cd /verif && VERIF_AFTER_BUILD="git -C /repo checkout -- . ; rm -f /tmp/repo-patched.lock" timeout 3000 ./check "$prop" "$@" </dev/null 2>&1 | cut -c1-260 | grep -v "^VIOLATION" | head -8; echo "exit=${PIPESTATUS[0]}" )
+git -C /repo checkout -- . ; rm -f /tmp/repo-patched.lock; git -C /repo status --short | head -3
